@@ -9,6 +9,8 @@ import (
 	"unicode/utf8"
 
 	tally "github.com/uber-go/tally/v4"
+	"github.com/uber-go/tally/v4/m3"
+	tprom "github.com/uber-go/tally/v4/prometheus"
 
 	"verifharness/mon"
 )
@@ -19,7 +21,36 @@ func runC06(c *mon.Ctx) {
 	c.Cases(func(i int, r *mon.Rand) {
 		c06Direct(c, r.Fork(1))
 		c06Scope(c, r.Fork(2))
+		c06ExportedLists(c)
 	})
+}
+
+// c06ExportedLists: a caller extends the exported character lists the usual
+// way (append to a package-level slice), as any code in the process may. The
+// lists, and the stock M3 and Prometheus sanitizers built from them, still
+// allow exactly what they are documented to allow.
+func c06ExportedLists(c *mon.Ctx) {
+	_ = append(tally.UnderscoreCharacters, ':')
+	_ = append(tally.UnderscoreDashCharacters, '/')
+	_ = append(tally.UnderscoreDashDotCharacters, ' ')
+	_ = append(tally.AlphanumericRange, tally.SanitizeRange{' ', '/'})
+	if a, b, d := string(tally.UnderscoreCharacters), string(tally.UnderscoreDashCharacters), string(tally.UnderscoreDashDotCharacters); a != "_" || b != "-_" || d != ".-_" {
+		c.Violation("exported-character-list-changed", map[string]interface{}{"why": fmt.Sprintf("after callers appended to copies of the exported lists: UnderscoreCharacters=%q UnderscoreDashCharacters=%q UnderscoreDashDotCharacters=%q", a, b, d)})
+		return
+	}
+	type probe struct{ got, want, what string }
+	m3s, ps := tally.NewSanitizer(m3.DefaultSanitizerOpts), tally.NewSanitizer(tprom.DefaultSanitizerOpts)
+	in := "a-b:c.d e/f_G9"
+	for _, p := range []probe{
+		{m3s.Name(in), "a-b_c.d_e_f_G9", "M3 name"}, {m3s.Key(in), "a-b_c_d_e_f_G9", "M3 tag key"}, {m3s.Value(in), "a-b_c.d_e_f_G9", "M3 tag value"},
+		{ps.Name(in), "a_b_c_d_e_f_G9", "Prometheus name"}, {ps.Key(in), "a_b_c_d_e_f_G9", "Prometheus tag key"}, {ps.Value(in), "a_b_c_d_e_f_G9", "Prometheus tag value"},
+	} {
+		if p.got != p.want {
+			c.Violation("stock-sanitizer-allows-other-characters", map[string]interface{}{"why": fmt.Sprintf("%s: %q sanitized to %q, the stock options allow letters, digits and a fixed few punctuation characters: want %q", p.what, in, p.got, p.want)})
+			return
+		}
+	}
+	c.Event("stock-sanitizer-probes", 6)
 }
 
 // boundary-heavy inputs for one ValidCharacters option
